@@ -12,7 +12,7 @@ import systems
 TWO30 = Fraction(1, 2 ** 30)
 
 
-def chain_system(rng, depth, guess_kind, norm_kind, decl='domain', far=False):
+def chain_system(rng, depth, guess_kind, norm_kind, decl='domain', far=False, analytic_first=False):
     """feed-forward chain c0 -> c1 -> ... : each component is a polynomial of degree <= 2 in one exogenous input and (from the second on) in the
     previous component's output; data_fidelity resolves it exactly.  The coupling variables' TRUE ranges are computed exactly; their declared
     domains are deliberately wrong guesses (too narrow / too wide / offset), declared either as `domain=` or as a Uniform distribution (which
@@ -69,7 +69,10 @@ def chain_system(rng, depth, guess_kind, norm_kind, decl='domain', far=False):
             x = np.asarray(inputs[f'x{_k}'], dtype=float) - L
             u = np.asarray(inputs[f'u{_k - 1}'], dtype=float) if _k else 0.0
             return {f'u{_k}': _s['a'] * x * x + _s['b'] * x + _s['c'] * u + _s['d'] * 0.25 * u * u}
-        comps.append(Component(model, ins, [variables[f'u{k}']], name=f'c{k}', vectorized=True, data_fidelity=(2,) * len(ins)))
+        if analytic_first and k == 0:      # a component without surrogate (its model is called directly) feeding surrogates through a normalised coupling variable
+            comps.append(Component(model, ins, [variables[f'u{k}']], name=f'c{k}', vectorized=True))
+        else:
+            comps.append(Component(model, ins, [variables[f'u{k}']], name=f'c{k}', vectorized=True, data_fidelity=(2,) * len(ins)))
     return System(*comps, name='c04'), specs, f, L
 
 
@@ -87,9 +90,12 @@ def run_chains(ctx: Ctx):
                 far, norm = True, 'none'
             else:
                 decl, guess, eb, ub, norm = 'uniform', 'offset', True, (n == 2), 'none'
-        system, specs, f, L = chain_system(rng, depth, guess, norm, decl=decl, far=far)
+        analytic = depth >= 2 and (n == 3 or rng.random() < 0.25)
+        if n == 3:
+            depth = max(depth, 2); analytic = True; norm = 'linear'
+        system, specs, f, L = chain_system(rng, depth, guess, norm, decl=decl, far=far, analytic_first=analytic)
         np.random.seed(ctx.seed * 23 + n)
-        case = {'chain': n, 'depth': depth, 'specs': specs, 'initial_guess': guess, 'declared_as': decl, 'far_offset_inputs': far, 'norm': norm,
+        case = {'chain': n, 'depth': depth, 'specs': specs, 'initial_guess': guess, 'declared_as': decl, 'far_offset_inputs': far, 'norm': norm, 'first_component_without_surrogate': analytic,
                 'update_bounds': ub, 'estimate_bounds': eb}
         ctx.case(case, nontrivial=depth >= 2, kind=f'chain:{guess}:{norm}:{decl}{":far" if far else ""}')
         test_set = None
@@ -104,6 +110,8 @@ def run_chains(ctx: Ctx):
             ctx.violate('C04:training-raises', f'{type(e).__name__}: {e}', case); continue
         stopped = False
         for c in system.components:
+            if not c.has_surrogate:
+                continue
             box = int(np.prod([m + 1 for m in c.max_beta]))
             if len(c.active_set) != box:
                 # recorded finding F8 (property C08): when the current surrogate is identically zero every relative error indicator is NaN, no
@@ -145,7 +153,7 @@ def run_chains(ctx: Ctx):
                 poly = [[q(a), ex(2, 0)], [q(b - 2 * a * L), ex(1, 0)], [q(a * L * L - b * L), ex(0, 0)]]
                 if k:
                     poly += [[q(Fraction(sp['c'])), ex(0, 1)], [q(Fraction(sp['d'], 4)), ex(0, 2)]]
-                mcomps.append([k, [num[f'x{k}']] + ([num[f'u{k - 1}']] if k else []), [num[f'u{k}']], [poly], 0])
+                mcomps.append([k, [num[f'x{k}']] + ([num[f'u{k - 1}']] if k else []), [num[f'u{k}']], [poly], 1 if (analytic and k == 0) else 0])
             for j in range(min(NS, 5)):
                 env0 = [[num[f'x{k}'], 1, q(Fraction(float(xn[f'x{k}'][j])))] for k in range(depth)]
                 ask = [num[f'u{k}'] for k in range(depth)]
